@@ -91,9 +91,17 @@ one_value(const struct cfg *c, uint64_t bits)
 
     for (int unsafe = 0; unsafe < 2; unsafe++) {
         int expect_ok = unsafe ? finite : accept;
+        const unsigned vcalls = rt_val_calls;
         RegisterAccess a = unsafe ? register_set_unsafe(&inst.t, 1, v) : register_set(&inst.t, 1, v);
         const char *key = ckey(c, unsafe ? "register_set_unsafe" : "register_set");
         snprintf(ctx, sizeof ctx, "value bits %016" PRIx64, bits);
+        /* what the register's own validator was asked by the checked variant: this register, this value */
+        if (r->ck == REGV_TYPE_CALLBACK) {
+            if (!unsafe && finite && (rt_val_calls == vcalls || rt_val_last_idx != 1 || rt_val_last_bits != bits))
+                vh_fail("validator-arguments", key, "%s: %u validator calls, the last one about entry %d with bits %016" PRIx64, ctx,
+                        rt_val_calls - vcalls, rt_val_last_idx, rt_val_last_bits);
+            VH_COUNT("validator callback arguments checked");
+        }
         if (expect_ok) {
             if (a.code != REG_ACCESS_SUCCESS) {
                 vh_fail("set-refused", key, "%s: code=%d", ctx, a.code);
